@@ -223,6 +223,8 @@ EvDone ==
                       \cup Flag(~E.ok \/ T(t).effort = 0 \/ T(t).other \/ Len(T(t).alloc) = 0 \/
                                   (worked /\ \A m \in DOMAIN ts[t].sum : ts[t].sum[m] = Need(t, m)),
                                 <<"C03", l, "scheduled without its effort", <<t, ts[t].sum>>>>)
+                      \* C08: a backward task ends no later than its deadline (explicit end, earliest successor start minus gap, project end)
+                      \cup Flag(Fwd(t) \/ ~E.ok \/ ~worked \/ T(t).pinEnd >= 0 \/ E.end <= b, <<"C08", l, "ends after its deadline", <<t, E.end, b>>>>)
                       \cup Flag(~E.crashed, <<"C11", l, "internal error while placing the task", t>>)
   /\ cur' = 0 /\ UNCHANGED <<used, usage, lim, lsec>>
 
@@ -257,6 +259,15 @@ Step == /\ l <= Len(Evs)
 \* a milestone the user pinned outside the project window is reported where the user put it
 UserPinnedMs(t) == T(t).effort = 0 /\ (T(t).pin # -1 \/ T(t).pinEnd # -1)       \* -1 = none; a pin before the project start is negative
 Conts == {c \in 1..NT : ~T(c).leaf /\ Kids(c) # {}}
+\* window (in ticks of r from the project start) in which the portion of task t in slot s of r must lie
+WinLo(F, t, r, s) == IF t = 0 \/ ~F[t].sched THEN s * Cap(r) ELSE Max2(s * Cap(r), (F[t].start - 1) * R(r).effN)
+WinHi(F, t, r, s) == IF t = 0 \/ ~F[t].sched THEN (s + 1) * Cap(r) ELSE Min2((s + 1) * Cap(r), (F[t].end + 1) * R(r).effN)
+LayoutOk(F, e) ==
+  LET r == e.r  s == e.s  q == e.parts  n == Len(q)
+      lo(i) == WinLo(F, q[i][1], r, s)
+      hi(i) == WinHi(F, q[i][1], r, s)
+  IN  r = 0 \/ \A i \in 1..n : \A j \in 1..n :
+        lo(i) <= hi(j) => SumU([k \in 1..n |-> <<0, IF lo(k) >= lo(i) /\ hi(k) <= hi(j) THEN q[k][2] ELSE 0>>]) <= hi(j) - lo(i)
 FinalBad(F) ==
      \* C10 on the state read through the API
      UNION {Flag((F[c].sched <=> \A k \in Kids(c) : F[k].sched)
@@ -267,6 +278,11 @@ FinalBad(F) ==
                        ELSE Len(TR.warns) > 0, <<"C11", l, "final: leaf neither scheduled in horizon nor warned", t>>) : t \in Leafs}
      \* C05 over every counter of the whole horizon
      \cup UNION {Flag(P05At(lsec, k), <<"C05", l, "final: limit exceeded", {k}>>) : k \in DOMAIN lsec}
+     \* C01: the portions booked in one slot can be laid out side by side INSIDE the reported intervals of their tasks
+     \* (Hall's condition over the window end points; reported dates may be off by one second, D12)
+     \cup (IF "ledger" \notin DOMAIN TR THEN {} ELSE
+           UNION {Flag(LayoutOk(F, TR.ledger[i]), <<"C01", l, "final: portions do not fit side by side inside the reported intervals", <<TR.ledger[i].r, TR.ledger[i].s>>>>) :
+                   i \in {j \in 1..Len(TR.ledger) : Len(TR.ledger[j].parts) >= 2}})
      \* C06 / C18 precondition: an unscheduled task reports no dates
 \* which quantifier domains the project of this trace belongs to (decided here, not in the harness)
 AlignedCal == P.cstep = G
